@@ -57,6 +57,13 @@ const _: () = assert!(UNCOMPRESSED_SIG_SIZE == std::mem::size_of::<blst::blst_p1
 /// Maximum number of signers that can be aggregated into an aggregate signature.
 const MAX_SIGNERS: usize = 2048;
 
+/// Verification hook: the maximum number of signers an aggregate signature supports.
+#[cfg(alpenglow_verif)]
+#[must_use]
+pub const fn verif_max_signers() -> usize {
+    MAX_SIGNERS
+}
+
 /// A secret key for the aggregate signature scheme.
 ///
 /// This is a wrapper around [`blst::min_sig::SecretKey`].
